@@ -9,11 +9,13 @@ from . import ref
 class Case:
     """One program under test: a small Program whose IDB relation names carry a unique suffix, so that many
     cases can be merged into one batch program."""
-    __slots__ = ("cid", "family", "prog", "desc", "tags", "edb")
+    __slots__ = ("cid", "family", "prog", "desc", "tags", "edb", "ref_prog", "ref_map")
 
-    def __init__(self, cid, family, prog, desc, tags=(), edb=None):
+    def __init__(self, cid, family, prog, desc, tags=(), edb=None, ref_prog=None, ref_map=None):
         self.cid, self.family, self.prog, self.desc, self.tags = cid, family, prog, desc, tuple(tags)
         self.edb = edb     # optional fixed database (dict rel -> tuples); None: use the schema's DB enumeration
+        self.ref_prog = ref_prog   # program the reference model evaluates (default: prog itself)
+        self.ref_map = ref_map     # output relation name of prog -> relation name in ref_prog
 
     def outputs(self):
         return [n for n, r in self.prog.rels.items() if r.is_output]
